@@ -43,6 +43,11 @@ type sent struct {
 	topic, seed, n int
 }
 
+// MarshalJSON: replays list every planned message as Pattern(seed, n) on its topic with its len:fnv64.
+func (m sent) MarshalJSON() ([]byte, error) {
+	return []byte(fmt.Sprintf(`{"topic":%d,"payload":"Pattern(%d,%d)","len_fnv64":"%s"}`, m.topic, m.seed, m.n, showMsg(Pattern(m.seed, m.n)))), nil
+}
+
 // Run is the C18 driver.
 func Run(o *drv.Out) {
 	base := o.Dir + "/nodes"
@@ -55,13 +60,14 @@ func Run(o *drv.Out) {
 		return
 	}
 	consts(o)
+	// the permanent scenarios first: when they fail, theirs is the specific signature to report
 	t0 := time.Now()
+	interleavedTopicsFirstLarge(o, base)
+	concurrentSmallAndLarge(o, base)
+	o.Extra["c18_interleave_s"] = time.Since(t0).Seconds()
+	t0 = time.Now()
 	tappedCases(o, base)
 	o.Extra["c18_tapped_s"] = time.Since(t0).Seconds()
-	t0 = time.Now()
-	concurrentSmallAndLarge(o, base)
-	interleavedTopicsFirstLarge(o, base)
-	o.Extra["c18_interleave_s"] = time.Since(t0).Seconds()
 	t0 = time.Now()
 	rawCases(o, base)
 	o.Extra["c18_raw_s"] = time.Since(t0).Seconds()
